@@ -676,6 +676,13 @@ pub(super) fn on_close(k: &mut Kernel, fd: Fd) -> bool {
                 if bind.local_port != listener_port {
                     continue;
                 }
+                // A wildcard listener only owns children of its own
+                // address family: `0.0.0.0:p` and `[::]:p` are separate
+                // listeners, and closing one must not reset the other's
+                // half-open connections.
+                if bind.local_addr.is_ipv4() != local.ip().is_ipv4() {
+                    continue;
+                }
                 if !wildcard && bind.local_addr != local.ip() {
                     continue;
                 }
